@@ -86,6 +86,13 @@ def run(report, db, tier):
     r6(report, db, F)
     r7(report, db, type_ci)
     r8(report, db, basic, ref)
+    # VarInt / VarLong are wire types too: their exact-bytes and round-trip
+    # clauses are decided by C03's loop analysis
+    from ..common import borrow
+    from . import c03
+    borrow(report, 'R02.9', 'VarInt/VarLong: canonical little-endian base-128 '
+           'bytes on send, the same number back on read (C03\'s rules)',
+           lambda rid, c: True, lambda sub: c03.run(sub, db, tier))
 
 
 # ---------------------------------------------------------------------------
